@@ -475,7 +475,15 @@ def no_cross_job_state(prog, an, rep):
                 continue        # a local of the same name
             pm_ = pm_cache.setdefault(f.qname, parent_map(f.node))
             par = pm_.get(n)
-            escapes = (isinstance(par, ast.Call) and n in par.args) or \
+            # (a copy, a length, an iteration hands nothing out)
+            copying = isinstance(par, ast.Call) and (
+                src(par.func) in ('dict', 'list', 'set', 'tuple',
+                                  'frozenset', 'sorted', 'len', 'bool',
+                                  'copy.copy', 'copy.deepcopy', 'deepcopy',
+                                  'copy', 'iter', 'enumerate', 'any', 'all',
+                                  'isinstance'))
+            escapes = (isinstance(par, ast.Call) and n in par.args and
+                       not copying) or \
                 isinstance(par, (ast.keyword, ast.Return)) or \
                 (isinstance(par, ast.Assign) and par.value is n) or \
                 (isinstance(par, ast.BoolOp)) or \
